@@ -282,8 +282,8 @@ def run(tier: str, seed: int) -> int:
         rep.model(m1, "write path with an atomic-or-failing move: TargetIntact/NoTemp/Faithful in every state, "
                       "2 files, <=2 raised faults, death anywhere")
         #    as written (shutil.move falls back to copy): TLC is expected to find the window
-        m2 = run_tlc("AtomicWrite", cfg_text(constants=dict(MODEL, MoveFallback=True), invariants=INVS), workers=4,
-                     timeout=1500, expect_violation=True)
+        m2 = run_tlc("AtomicWrite", cfg_text(constants=dict(MODEL, MoveFallback=True), invariants=INVS), workers=1,
+                     timeout=1500, expect_violation=True)     # one worker: the state count at the violation is deterministic
         rep.model(m2, "write path as written (shutil.move copy fallback)")
         rep.extra["model_as_written_violates"] = m2.violated
         # 2. S->C: enumerate plans, replay each on the three levels
